@@ -789,6 +789,15 @@ def c02_monitor(ctx, res, case, impl_line, model_line, spec):
                     break
                 if explained and used:
                     shape = 'partial_update_rewrites_row' if 'partial_update_rewrites_row' in used else 'update_resurrects_deleted'
+        # the model reproduces the recorded findings (it follows the code): a divergence from the
+        # documented rule is explained by them only if the implementation still agrees with the model
+        if shape and shape != 'empty_text_reads_null':
+            mops = [x.split() for x in cmpmod.canon(model_line, False).split(' ; ')]
+            mgot = [t for t in (mops[idx] if idx < len(mops) else []) if not t.startswith('RO:')]
+            mcut = mgot[:mgot.index('M')] if 'M' in mgot else mgot
+            gcut = got[:got.index('M')] if 'M' in got else got
+            if mcut != gcut:
+                shape = None
         if shape and ctx.prop != 'C02':
             continue   # recorded under C02 / C08; not what this property is about
         if shape:
@@ -907,7 +916,7 @@ def c04_monitor(ctx, res, case, impl_line, model_line, spec):
                 seen_new = True
 
 def l1c_suite(quick=120, thorough=3000):
-    inner = l1_suite(['rows', 'plain'], quick, thorough, monitor=c04_monitor, name='l1c')
+    inner = l1_suite(['rows', 'plain'], quick, thorough, monitor=chain(c04_monitor, mutation_order_monitor), name='l1c')
     def f(ctx):
         # the crash suite uses harness level l1c
         return inner(ctx)
@@ -1091,7 +1100,8 @@ register('C15', [l2_suite('conn', native=False, extra_monitor=lambda *a: (c15_mo
                  l0_suite(['merge_rows', 'merge_values'])],
          ['write times have second granularity (SQLiteTimeFormat)'])
 register('C05', [l2_suite('tx', name='l2-tx'), l2_suite('multi', native=False, extra_monitor=c02_monitor, name='l2-multi'),
-                 l2_suite('faults', name='l2-faults', quick=80, thorough=1500)],
+                 l2_suite('faults', name='l2-faults', quick=80, thorough=1500,
+                          determined='a statement or commit that failed left something behind (or one that succeeded is not seen): another connection reads other rows than the statements that succeeded explain')],
          ['SQLite calls xBegin once per transaction before the first xUpdate'])
 register('C12', [l2_suite('changes', native=False, name='l2-changes', determined='s3db_changes / a read of a version returns other rows than the two versions fix'),
                  l1_suite(['rows'], name='l1f', quick=120, monitor=determined_result_monitor('a diff / open under storage faults neither fails nor returns the complete answer'))],
@@ -1099,7 +1109,8 @@ register('C12', [l2_suite('changes', native=False, name='l2-changes', determined
 register('C11', [l2_suite('changes', native=False, name='l2-changes', determined='reading a recorded version list returns other rows than were visible when it was recorded'),
                  l1_suite(['rows', 'plain'], monitor=chain(mutation_order_monitor, determined_result_monitor('an open restricted to recorded versions (or a later read) returns other entries than those versions hold')))], [])
 register('C16', [l2_suite('multi', native=False, extra_monitor=c02_monitor, name='l2-multi'), l0_suite(['nodecodec']), l1_suite(['rows']),
-                 l2_suite('faults', name='l2-faults', quick=80, thorough=1500)], [])
+                 l2_suite('faults', name='l2-faults', quick=80, thorough=1500,
+                          determined='a fresh reader does not read exactly what the acknowledged commits wrote')], [])
 def c14_monitor(ctx, res, case, impl_line, model_line, spec):
     """an acknowledged commit whose contents a later open cannot find (the oracle marks the
     operation: LIE:<op index>; the implementation agreed with the model on that operation)"""
@@ -1123,7 +1134,8 @@ def c14_monitor(ctx, res, case, impl_line, model_line, spec):
 register('C14', [l1_suite(['rows', 'plain', 'cb'], name='l1f', quick=250,
                           monitor=chain(c14_monitor, mutation_order_monitor,
                                         determined_result_monitor('under a storage fault an operation neither failed nor returned the complete, correct result'))),
-                 l2_suite('faults', name='l2-faults', quick=80, thorough=1500)],
+                 l2_suite('faults', name='l2-faults', quick=80, thorough=1500,
+                          determined='after storage faults a connection reads other rows than the statements that succeeded explain')],
          ['kv level: faults in the in-process store; SQL level: one-shot HTTP 403 answers of the S3 endpoint during a statement; hangs are bounded by the harness timeout'])
 # ---------------------------------------------------------------- C18 (node encryption)
 def c18_monitor(ctx, res, fn, case, impl, model, spec):
